@@ -188,6 +188,16 @@ def resolve_discipline(ctx):
                 # returned from a closure as Result via ok_or_else(..)? inside the closure
                 for x in f.exits():
                     if any(y == ce for y in walk(x['expr'])):
+                        xe = strip(x['expr'])
+                        wrapped = xe
+                        while wrapped[0] == 'call' and (wrapped[3].endswith('Context::with_context') or wrapped[3].endswith('Context::context') or re.search(r'Option::<T>::(ok_or|ok_or_else)$', wrapped[1])):
+                            wrapped = strip(wrapped[2][0])
+                        if wrapped == ce and xe != ce and f.kind == 'Closure' and f.parent in P.fns:
+                            # Result built inside a closure: the creator must propagate it
+                            par = P.fns[f.parent]
+                            if any(g_.kind == 'reject' and g_.pred[0] == 'fails' and any(isinstance(y, tuple) and y[0] == 'closure' and y[1] == f.id for y in walk(g_.pred)) for g_ in guards_of(par)):
+                                how = 'converted to Err inside a closure whose Result the creator propagates with `?`'
+                                break
                         if x['kind'] in ('err_prop',):
                             how = 'converted to Err and propagated'
                         elif x['kind'] in ('passthrough', 'other', 'some', 'ok', 'none') and not find_calls(x['expr'], 'ok_or'):
